@@ -1079,6 +1079,15 @@ pub fn generate(profile: Profile, verif_seed: u64, index: u64, tgt: Target) -> F
                 b.scn_byte_iter(t, false, false, mh);
             }
         }
+        Profile::C07 if index == 99 && !tgt.scale_small => {
+            // one episode per run: counts that only fit in more than 32 bits
+            let len = (1u64 << 32) + 4096 + b.rng.below(4096);
+            for be in [Backend::Top, Backend::Avx2, Backend::Sse2] {
+                let holes: Vec<u64> = (0..b.rng.range(0, 6)).map(|i| (i as u64 + 1) * 700_000_007 % len).collect();
+                b.push(0, Op::HugeCount { be, len, holes });
+            }
+            env.sched = Sched::Sequential;
+        }
         Profile::C07 => {
             let k = b.rng.range(1, 3);
             for _ in 0..k {
@@ -1105,6 +1114,18 @@ pub fn generate(profile: Profile, verif_seed: u64, index: u64, tgt: Target) -> F
                 };
                 b.push(0, Op::Byte { be, f: ByteFn::Count, arity: 1, n, hay, raw });
             }
+        }
+        Profile::C08 | Profile::C14 if index == 99 && !tgt.scale_small => {
+            // one episode per run: a search that skips more than 4 GiB
+            let mut needle = vec![b'e'; 44];
+            needle[0] = b'z';
+            needle[1] = b'q';
+            needle[43] = b'k';
+            let needle = b.buf(needle, None);
+            let len = (1u64 << 32) + (300 << 20);
+            let at = 3u64 << 30;
+            b.push(0, Op::HugeFindIter { needle, len, at });
+            env.sched = Sched::Sequential;
         }
         Profile::C08 => {
             let k = b.rng.range(1, 2);
